@@ -34,6 +34,9 @@ CHECKS = {
         "groups": [
             {"pkg": "./server/commitlog", "overlay": "commitlog", "pkgname": "commitlog",
              "harnesses": [
+                 {"name": "VerifC02EpochHistory", "quick": {"steps": 4}, "thorough": {"steps": 5}, "max-paths": 3000000,
+                  "covers": ["done", "elected", "append", "replicated", "truncate", "reopen"],
+                  "targets": ["commitLog).NewLeaderEpoch", "commitLog).LastOffsetForLeaderEpoch", "leaderEpochCache).assign", "leaderEpochCache).ClearLatest"]},
                  {"name": "VerifC02Replication", "quick": {"steps": 5, "elections": 1}, "thorough": {"steps": 7, "elections": 2}, "max-paths": 5000000,
                   "covers": ["done", "publish", "fetch", "commit", "election", "follow", "shrink"],
                   "targets": ["commitLog).NewLeaderEpoch", "commitLog).LastOffsetForLeaderEpoch", "commitLog).Truncate", "commitLog).AppendMessageSet", "leaderEpochCache).ClearLatest"]},
